@@ -368,10 +368,25 @@ def run(model: RepoModel, rep, tier: str):
         else:
             rep.violation("C19.R4", key, FILE, tadd.node.lineno, f"PathTrie.add_path: {msg}")
 
-    # information: the empty path
-    rep.info("C19.R4", f"{FILE}::PathTrie.add_path::empty path", FILE, tadd.node.lineno,
-             "the root's terminal flag is never inspected by the prefix loop, so an empty CallPath stored first is not evicted by "
-             "later paths (PathManager never builds an empty path for a frame with a caller)")
+    # the empty path: its node is the ROOT, which the per-element loops never look at (they test a node only after stepping into it).
+    # The eviction step has to inspect the root's terminal flag before the loop, otherwise add([]); add([a]) stores both
+    key = f"{FILE}::PathTrie.add_path::the empty path is evicted like any other proper prefix"
+    acfg = cfg_of(tadd.node)
+    root_vars = {x.targets[0].id for x in walk_no_nested(tadd.node) if isinstance(x, ast.Assign) and isinstance(x.targets[0], ast.Name) and is_self_attr(x.value, "root")}
+    inspected = False
+    for n_ in acfg.g.nodes:
+        st_ = acfg.stmt.get(n_)
+        if acfg.kind[n_] == "test" and isinstance(st_, ast.If) and not any(n_ in body for body in acfg.loop_body_nodes.values()):
+            if any(_attr_named(x, "is_terminal") and ((isinstance(x.value, ast.Name) and x.value.id in root_vars) or is_self_attr(x.value, "root")) for x in ast.walk(st_.test)):
+                if any(isinstance(c, ast.Call) and isinstance(c.func, ast.Attribute) and c.func.attr in ("append", "discard") for b in st_.body for c in ast.walk(b)) \
+                        or any(isinstance(c, ast.Call) and is_self_attr(c.func, "_mark_non_terminal") for b in st_.body for c in ast.walk(b)):
+                    inspected = True
+    if inspected:
+        rep.holds("C19.R4", key, FILE, tadd.node.lineno, "the root's terminal flag is tested outside the per-element loop and leads to an eviction")
+    else:
+        rep.violation("C19.R4", key, FILE, tadd.node.lineno,
+                      "PathTrie.add_path never inspects the terminal flag of the root outside its per-element loops: an empty path stored first is not evicted "
+                      "when a non-empty path is added -- add([]); add([a]) stores both, although [] is a proper prefix of [a]")
 
 
 def _nonempty_test(e: ast.AST, attr: str) -> bool:
